@@ -128,6 +128,7 @@ class Contract:
         self.rel = os.path.relpath(self.path, VERIF)
         lines = open(self.path).read().split('\n')
         self.src_file = self.fn_spec = None
+        self.wrap = None
         self.head = []          # (lineno, text): attributes + signature + clauses
         self.directives = []    # dict(kind, arg, lineno, text[])
         cur = None
@@ -136,6 +137,8 @@ class Contract:
             s = ln.strip()
             if s.startswith('//@source'):
                 _, self.src_file, self.fn_spec = s.split(None, 2)
+            elif s.startswith('//@wrap'):
+                self.wrap = s[len('//@wrap'):].strip()
             elif s.startswith('//@body'):
                 in_body = True
             elif s.startswith('//@') and in_body:
@@ -216,6 +219,8 @@ def build_fn(key, mode, log):
         prov['rewrites'].append(dict(rule='D1', where='%s:%d' % (c.src_file, line_of(S.text, loc['item_start'])),
                                      before=re.sub(r'\s+', ' ', dropped)[:200], after=''))
     out = []
+    if c.wrap:
+        out.append(Line(c.wrap + ' {', ('T', c.rel, 0)))
     for no, ln in c.head:
         out.append(Line(ln, ('T', c.rel, no)))
     if mode == 'decl':
@@ -223,6 +228,8 @@ def build_fn(key, mode, log):
         idx = next(i for i, l in enumerate(out) if re.search(r'\bfn\b', l.text))
         out.insert(idx, Line('#[verifier::external_body]', ('G', 'decl of ' + key)))
         out.append(Line('{ unimplemented!() }', ('G', 'decl of ' + key)))
+        if c.wrap:
+            out.append(Line('}', ('G', 'wrap close of ' + key)))
         log.extend(prov['rewrites'])
         return out, prov, c
 
@@ -294,6 +301,8 @@ def build_fn(key, mode, log):
             continue
         if k == 'first':
             inserts.append((0, ghost_text(d), tag, d))
+        elif k == 'last':
+            inserts.append((len(body.rstrip()), ghost_text(d), tag, d))
         elif k == 'loop':
             parts = d['arg'].split()
             n = int(parts[0])
@@ -375,6 +384,8 @@ def build_fn(key, mode, log):
         out.append(Line(ln_text, o))
         start = end + 1
     out.append(Line('}', ('G', 'body close of ' + key)))
+    if c.wrap:
+        out.append(Line('}', ('G', 'wrap close of ' + key)))
     return out, prov, c
 
 
@@ -390,6 +401,8 @@ def build_item(rel, kind, name, log):
         prov['rewrites'].append(dict(rule='D1', where='%s:%d' % (rel, line_of(S.text, loc['attrs_start'])),
                                      before=re.sub(r'\s+', ' ', attrs)[:200], after=''))
     out = []
+    for rm in re.finditer(r'#\[repr\([^\]]*\)\]', attrs):
+        out.append(Line(rm.group(0), ('S', rel, line_of(S.text, loc['attrs_start']))))
     ln = line_of(S.text, loc['start'])
     for t in text.split('\n'):
         t2 = re.sub(r'^(\s*)pub\s*(\([^)]*\))?\s+', r'\1', t)
@@ -423,6 +436,25 @@ class Unit:
                 ls, prov = build_item(srel, kind, name, self.rewrites)
                 self.lines += ls
                 self.prov.append(prov)
+            elif s.startswith('//@const'):
+                # `//@const <src> <NAME> <ensures-expr>`: the real initialiser expression verbatim, in
+                # Verus' `exec const .. ensures .. { expr }` form (rule D3)
+                _, srel, name, ens = s.split(None, 3)
+                S = source(srel)
+                loc = S.find_item('const', name)
+                text = S.text[loc['start']:loc['end']]
+                m = re.match(r'\s*(pub\s*(\([^)]*\))?\s+)?const\s+(\w+)\s*:\s*([^=]+?)\s*=\s*(.*);\s*$', text, re.S)
+                if not m:
+                    raise LostAnchor('%s: const %s has an unexpected shape' % (srel, name))
+                ln0 = line_of(S.text, loc['start'])
+                self.lines.append(Line('exec const %s: %s' % (m.group(3), m.group(4)), ('S', srel, ln0)))
+                self.lines.append(Line('    ensures %s,' % ens, ('T', rel, no)))
+                self.lines.append(Line('{ %s }' % m.group(5), ('S', srel, ln0)))
+                self.prov.append(dict(key='const ' + name, file=srel, lines=[ln0, line_of(S.text, loc['end'])],
+                                      sha256=hashlib.sha256(text.encode()).hexdigest(), mode='const',
+                                      rewrites=[dict(rule='D3', where='%s:%d' % (srel, ln0), before=re.sub(r'\s+', ' ', text.strip()),
+                                                     after='exec const .. ensures .. { <same expression> }')]))
+                self.rewrites += self.prov[-1]['rewrites']
             elif s.startswith('//@fn') or s.startswith('//@decl'):
                 d, key = s.split()
                 mode = 'body' if d == '//@fn' else 'decl'
